@@ -21,6 +21,8 @@
 (*   paths  instance |-> sequence of node paths in registration order         *)
 (*          (running, endpoints..., identity)                                 *)
 (*   data   host |-> container |-> sequence of node data (same indexing)      *)
+(*   kidx   indexes of the paths presence.kill_node removes (running and      *)
+(*          endpoints, not the identity)                                      *)
 (*   defects  subset of {"olderSteals"}: behaviour of the unrepaired code     *)
 (*          (see NewerKept below); {} describes the repaired behaviour.       *)
 EXTENDS Naturals, Sequences, FiniteSets, TLC
@@ -30,7 +32,8 @@ CONSTANTS Hosts,       \* sequence of hosts
           InstOf,      \* container -> instance
           PathsOf,     \* instance -> sequence of paths
           PerCont,     \* path indexes whose data differs per container (endpoint host:port)
-          MaxExpire,   \* bound on session expiries
+          MaxExpire,   \* bound on service failures (session expiry or crash)
+          MaxKill,     \* bound on administrator kill_node calls
           MaxFire,     \* bound on the number of retries one call / expiry triggers
           MaxPad,      \* generator only: padding steps after quiescence
           Defects
@@ -70,7 +73,10 @@ InitSt(S) ==
    watches |-> {},                                \* [h, p, c]: data watch of h's service
    claimed |-> [h \in HostSet(S) |-> {}],         \* <<p, c>>: c registered p, node still there
    order   |-> <<>>,                              \* containers in submission order
+   placed  |-> [h \in HostSet(S) |-> {}],         \* instances ever placed on the host
+   linger  |-> {},                                \* sessions of crashed services, not yet expired
    nexp    |-> 0,
+   nkill   |-> 0,
    pad     |-> 0,
    last    |-> NoLast]                            \* what the last step did (step invariants)
 
@@ -81,6 +87,7 @@ Put(f, p, v) == (p :> v) @@ f
 Submitted(st_) == Range(st_.order)
 Quiescent(S, st_) ==
   /\ Submitted(st_) = ContSet(S)
+  /\ st_.linger = {}
   /\ \A h \in HostSet(S) : st_.active[h] = {} /\ st_.queue[h] = <<>> /\ st_.pc[h].ph = "idle"
 
 -----------------------------------------------------------------------------
@@ -96,6 +103,7 @@ SubmitDo(S, st_, h, c) ==
   [st_ EXCEPT !.active[h] = @ \cup {c},
               !.queue[h] = Append(@, <<"create", c>>),
               !.order = Append(@, c),
+              !.placed[h] = @ \cup {S.inst[c]},
               !.last = NoLast]
 
 CanFinish(S, st_, h, c) == st_.pc[h].ph # "down" /\ c \in st_.active[h]
@@ -294,9 +302,64 @@ RestartDo(S, st_, h, rord) ==
               !.queue[h] = [i \in 1..Len(rord) |-> <<"create", rord[i]>>],
               !.last = NoLast]
 
+(* The service process dies without closing its session (kill -9, lost zkid   *)
+(* file): the request in flight is abandoned, the map and the watches are     *)
+(* gone, but the session and its ephemeral nodes linger until the session     *)
+(* times out (Reap); the restarted service has a new session meanwhile.       *)
+CanCrash(S, st_, h) ==
+  /\ st_.nexp < MaxExpire
+  /\ st_.pc[h].ph # "down"
+  /\ ~Quiescent(S, st_)
+
+CrashDo(S, st_, h) ==
+  [st_ EXCEPT !.linger = @ \cup {st_.sess[h]},
+              !.watches = {w \in @ : w.h # h},
+              !.sess[h] = 0,
+              !.reg[h] = <<>>,
+              !.claimed[h] = {},
+              !.pc[h] = [IdlePc EXCEPT !.ph = "down"],
+              !.fs[h] = FALSE,
+              !.queue[h] = <<>>,
+              !.nexp = @ + 1,
+              !.last = NoLast]
+
+SessNodes(st_, s) == {p \in DOMAIN st_.nodes : st_.nodes[p].o = s}
+FiredOn(st_, ps) == UNION {Watchers(st_, p) : p \in ps}
+
+CanReap(S, st_, s, word) == s \in st_.linger /\ word \in Orders(FiredOn(st_, SessNodes(st_, s)))
+
+(* removal of the nodes ps by someone who is no presence service *)
+Vanish(S, st_, ps, word) ==
+  Fire(S, [st_ EXCEPT !.nodes = [q \in DOMAIN st_.nodes \ ps |-> st_.nodes[q]],
+                      !.claimed = [h2 \in HostSet(S) |-> {q \in @[h2] : q[1] \notin ps}],
+                      !.last = [NoLast EXCEPT !.await = IF word = <<>> THEN {} ELSE ps]],
+       word)
+
+ReapDo(S, st_, s, word) ==
+  [Vanish(S, st_, SessNodes(st_, s), word) EXCEPT !.linger = @ \ {s}]
+
+(* An administrator runs presence.kill_node(h) (cli/admin/blackout.py): for    *)
+(* every instance placed on h the running and endpoint nodes whose data names *)
+(* h are deleted -- from the administrator's session.                          *)
+WrittenBy(S, h, p, d) ==
+  \E c \in ContSet(S) : \E k \in DOMAIN CPaths(S, c) : CPaths(S, c)[k] = p /\ S.data[h][c][k] = d
+
+KillSet(S, st_, h) ==
+  {p \in DOMAIN st_.nodes :
+     /\ \E a \in st_.placed[h] : \E k \in S.kidx \cap DOMAIN S.paths[a] : S.paths[a][k] = p
+     /\ WrittenBy(S, h, p, st_.nodes[p].d)}
+
+CanKill(S, st_, h, word) ==
+  /\ st_.nkill < MaxKill
+  /\ ~Quiescent(S, st_)
+  /\ word \in Orders(FiredOn(st_, KillSet(S, st_, h)))
+
+KillDo(S, st_, h, word) ==
+  [Vanish(S, st_, KillSet(S, st_, h), word) EXCEPT !.nkill = @ + 1]
+
 -----------------------------------------------------------------------------
 Scn == [hosts |-> Hosts, conts |-> Conts, inst |-> InstOf, paths |-> PathsOf,
-        defects |-> Defects,
+        defects |-> Defects, kidx |-> {1} \cup PerCont,
         data |-> [h \in Range(Hosts) |-> [c \in Range(Conts) |->
                     [k \in 1..Len(PathsOf[InstOf[c]]) |->
                         IF k \in PerCont THEN <<h, c>> ELSE <<h>>]]]]
@@ -310,6 +373,9 @@ Call(h, ord) == InCall(st, h) /\ ord \in FireOrders(Scn, st, h) /\ st' = CallDo(
 End(h) == CanEnd(Scn, st, h) /\ st' = EndDo(Scn, st, h)
 Expire(h, word) == CanExpire(Scn, st, h, word) /\ st' = ExpireDo(Scn, st, h, word)
 Restart(h, rord) == CanRestart(Scn, st, h, rord) /\ st' = RestartDo(Scn, st, h, rord)
+Crash(h) == CanCrash(Scn, st, h) /\ st' = CrashDo(Scn, st, h)
+Reap(s, word) == CanReap(Scn, st, s, word) /\ st' = ReapDo(Scn, st, s, word)
+Kill(h, word) == CanKill(Scn, st, h, word) /\ st' = KillDo(Scn, st, h, word)
 Pad(n) == Quiescent(Scn, st) /\ st.pad < MaxPad /\ n = st.pad + 1
           /\ st' = [st EXCEPT !.pad = n, !.last = NoLast]
 
@@ -327,6 +393,9 @@ Next ==
   \/ \E h \in Range(Hosts) : End(h)
   \/ \E h \in Range(Hosts), word \in FireSeqs : Expire(h, word)
   \/ \E h \in Range(Hosts), rord \in ContSeqs : Restart(h, rord)
+  \/ \E h \in Range(Hosts) : Crash(h)
+  \/ \E s \in 1..(Len(Hosts) + MaxExpire), word \in FireSeqs : Reap(s, word)
+  \/ \E h \in Range(Hosts), word \in FireSeqs : Kill(h, word)
   \/ \E n \in 1..MaxPad : Pad(n)
 
 Spec == Init /\ [][Next]_st
@@ -335,14 +404,18 @@ Spec == Init /\ [][Next]_st
 (* Property C17.                                                              *)
 
 (* C17.ephemeral: every presence node is ephemeral; the node a create call    *)
-(* just made belongs to the calling session; what a service has registered    *)
-(* is a node of its own session.                                              *)
+(* just made belongs to the calling session.                                  *)
 Ephemeral ==
   /\ \A p \in DOMAIN st.nodes : st.nodes[p].o # 0
   /\ st.last.w.op = "create" =>
        st.last.w.path \in DOMAIN st.nodes /\ st.nodes[st.last.w.path].o = st.last.s
-  /\ \A h \in Range(Hosts) : \A p \in DOMAIN st.reg[h] :
-       p \in DOMAIN st.nodes /\ st.nodes[p].o = st.sess[h]
+
+(* Without an administrator deleting nodes (MaxKill = 0): what a service has  *)
+(* registered is a node of its own session -- which makes the owner test of   *)
+(* _safe_delete redundant in that environment.                                *)
+RegisteredOwned ==
+  \A h \in Range(Hosts) : \A p \in DOMAIN st.reg[h] :
+     p \in DOMAIN st.nodes /\ st.nodes[p].o = st.sess[h]
 
 (* C17.noForeign: a set / delete is applied only to a node the calling        *)
 (* session owns at that instant.                                              *)
@@ -368,9 +441,12 @@ OwnOnly == st.last.rk = "delete" /\ st.last.w.op = "delete" => st.last.regc = st
 (* registered.  Violated by the unrepaired behaviour ("olderSteals").         *)
 NewerKept == ~st.last.stole
 
-(* sanity of the model itself: a request never finds its own node missing;    *)
+(* sanity of the model itself: a request never finds its own node missing     *)
+(* (MaxKill = 0);                                                             *)
 (* never more simultaneous retries than the labels can carry                  *)
 NoError == \A h \in Range(Hosts) : st.pc[h].res # "error"
 FireBound == /\ \A p \in DOMAIN st.nodes : Cardinality(Watchers(st, p)) <= MaxFire
              /\ \A h \in Range(Hosts) : Cardinality(ExpireFired(st, h)) <= MaxFire
+             /\ \A h \in Range(Hosts) : Cardinality(FiredOn(st, KillSet(Scn, st, h))) <= MaxFire
+             /\ \A s \in st.linger : Cardinality(FiredOn(st, SessNodes(st, s))) <= MaxFire
 =============================================================================
